@@ -67,8 +67,9 @@ def scenario(bins, idx, rng):
                 time.sleep(rng.choice([0, 0.003, 0.015, 0.05]))
                 ro = open(os.path.join(fx.root, "fr-%d.out" % nproc), "wb")
                 ts0 = time.monotonic_ns()
-                rp = fx.spawn(["result", "show"], stdout=ro, stderr=subprocess.DEVNULL)
-                readers.append((nproc, rp, ro, ts0))
+                rapi = rng.choice(["result_show", "analyze"])
+                rp = fx.spawn(["result", "show"] if rapi == "result_show" else ["analyze"], stdout=ro, stderr=subprocess.DEVNULL)
+                readers.append((nproc, rp, ro, ts0, rapi))
             victim = rng.choice(wave_procs) if rng.random() < 0.35 else None
             if victim is not None:
                 time.sleep(rng.choice([0, 0.005, 0.02, 0.06]))
@@ -91,7 +92,7 @@ def scenario(bins, idx, rng):
                         try:
                             e = json.loads(line)
                             if e.get("kind") == "error":
-                                err = e.get("type", "")
+                                err = "server" if (e.get("type") == "server" or "lock" in (str(e.get("type", "")) + " " + str(e.get("message", ""))).lower()) else e.get("type", "")
                         except ValueError:
                             pass
                     events.append({"e": "exit", "p": n, "rc": p.returncode, "lockerr": p.returncode != 0 and err == "server", "ts": ts})
@@ -108,10 +109,23 @@ def scenario(bins, idx, rng):
                             events.append(ev)
                 except OSError:
                     pass
-            for (n, rp, ro, ts0) in readers:
+            for (n, rp, ro, ts0, rapi) in readers:
                 rp.wait(timeout=120)
                 ts = time.monotonic_ns()
                 ro.close()
+                if rapi == "analyze":
+                    try:
+                        doc = json.load(open(os.path.join(fx.root, "fr-%d.out" % n)))
+                    except (OSError, ValueError):
+                        doc = None
+                    if rp.returncode == 0 and not (isinstance(doc, dict) and isinstance(doc.get("targets"), list) and "checkpointed" in doc):
+                        continue        # an answer the driver cannot place
+                    events.append({"e": "start", "p": n, "api": "analyze", "ts": ts0})
+                    events.append({"e": "answered", "p": n, "ok": rp.returncode == 0, "ts": ts,
+                                   "checkpointed": bool(doc.get("checkpointed")) if rp.returncode == 0 else False,
+                                   "targets": [t.split("/") for t in doc["targets"]] if rp.returncode == 0 else []})
+                    reader_ids.append(n)
+                    continue
                 slot = 0
                 try:
                     doc = json.load(open(os.path.join(fx.root, "fr-%d.out" % n)))
@@ -225,8 +239,8 @@ def stage(chk, bins, pid, n):
                 ok2, _ = validate(bare, tmp)
                 if ok2:
                     acc += 1
-                    chk.notes.append({"MODEL-DRIFT": "free-running trace %d: a concurrent `result show` answered something no instant of the explained behaviour offers" % rec["idx"],
-                                      "readers": [e for e in rec["events"] if e.get("e") == "shown"]})
+                    chk.notes.append({"MODEL-DRIFT": "free-running trace %d: a concurrent reader (`result show` / `analyze`) answered something no instant of the explained behaviour offers" % rec["idx"],
+                                      "readers": [e for e in rec["events"] if e.get("e") in ("shown", "answered")]})
                     print("NOTE: MODEL-DRIFT free-running trace %d: concurrent reader not explained" % rec["idx"])
                     continue
                 rec = bare
